@@ -124,6 +124,51 @@ Section Lazy.
   Definition lopt_node_attr (n : N) (name : option ident) (v : value) : LM unit :=
     match name with Some k => ladd_node_attr n k v | None => ret tt end.
 
+  (* a fresh error raised directly inside a context (`Err(e).with_context(..)`) *)
+  Definition fail_in {A} (c : context) (e : exec_error) : LM A := fun _ => Err (EInContext c e).
+
+  (* graph mutations of the evaluation phase (statements.rs) *)
+  Definition lattr_node_add (n : N) (k : ident) (v : value) (prev : option stmt_ctx) (dbg : stmt_ctx) : LM unit :=
+    s <- get_state ;;
+    match gnode_at (l_graph s) n with
+    | None => panic P_graph_index
+    | Some nd => let '(m', c) := attrs_add (g_attrs nd) k v in
+                 match c with
+                 | Some _ => fail_in (CtxStmts (match prev with Some p => [p; dbg] | None => [dbg] end)) EDuplicateAttribute
+                 | None => set_lgraph (graph_update (l_graph s) n (with_attrs m'))
+                 end
+    end.
+  (* add_edge; a NEW edge gets the debug attributes computed at execution time, an existing one keeps its own *)
+  Definition ledge_add (a b : N) (eattrs : amap) : LM unit :=
+    s <- get_state ;;
+    match graph_add_edge (l_graph s) a b with
+    | None => panic P_graph_index
+    | Some (g', isnew) =>
+        if isnew then set_lgraph (graph_update g' a (fun nd => with_edges (edges_set b eattrs (g_edges nd)) nd))
+        else set_lgraph g'
+    end.
+  Definition lattr_edge_add (a b : N) (k : ident) (v : value) (prev : option stmt_ctx) (dbg : stmt_ctx) : LM unit :=
+    s <- get_state ;;
+    match gnode_at (l_graph s) a with
+    | None => panic P_graph_index
+    | Some nd =>
+        match edges_get b (g_edges nd) with
+        | None => fail EUndefinedEdge
+        | Some m =>
+            let '(m', c) := attrs_add m k v in
+            match c with
+            | Some _ => fail_in (CtxStmts (match prev with Some p => [p; dbg] | None => [dbg] end)) EDuplicateAttribute
+            | None => set_lgraph (graph_update (l_graph s) a (with_edges (edges_set b m' (g_edges nd))))
+            end
+        end
+    end.
+  Definition ledge_exists (a b : N) : LM bool :=
+    s <- get_state ;;
+    match gnode_at (l_graph s) a with
+    | None => panic P_graph_index
+    | Some nd => ret (match edges_get b (g_edges nd) with Some _ => true | None => false end)
+    end.
+
   Definition lpush_frame : LM unit := s <- get_state ;; set_llocals ([] :: l_locals s).
   Definition lpop_frame : LM unit :=
     s <- get_state ;; match l_locals s with _ :: up => set_llocals up | [] => panic P_locals_empty end.
@@ -182,6 +227,25 @@ Section Lazy.
     | Err e => fail e
     | Panic p => panic p
     | OutOfFuel => out_of_fuel
+    end.
+
+  (* the loop of LazyScopedVariables::force over the collected definitions; `ev` evaluates a scope *)
+  Fixpoint dbg_get (l : list (N * stmt_ctx)) (n : N) : option stmt_ctx :=
+    match l with [] => None | (k, d) :: l' => if N.eqb n k then Some d else dbg_get l' n end.
+  Fixpoint force_pairs (ev : lvalue -> LM N) (ps : list (lvalue * lvalue * stmt_ctx))
+      (values : list (N * lvalue)) (dbgs : list (N * stmt_ctx)) : LM (list (N * lvalue)) :=
+    match ps with
+    | [] => ret values
+    | (scope, v, dbg) :: ps' =>
+        n <- ctx_wrap (CtxStmts [dbg]) (ctx_wrap CtxOther (ev scope)) ;;
+        match nmap_get values n with
+        | Some _ =>
+            match dbg_get dbgs n with
+            | Some prev => fail_in (CtxStmts [prev; dbg]) EDuplicateVariable
+            | None => panic P_unreachable_scoped
+            end
+        | None => force_pairs ev ps' (values ++ [(n, v)]) (dbgs ++ [(n, dbg)])
+        end
     end.
 
   (* ---------------- evaluation (values.rs, store.rs) ---------------- *)
@@ -251,22 +315,7 @@ Section Lazy.
     | S fuel =>
       match cell with
       | SVUnforced pairs =>
-          (fix go (ps : list (lvalue * lvalue * stmt_ctx)) (values : list (N * lvalue)) (dbgs : list (N * stmt_ctx))
-             : LM (list (N * lvalue)) :=
-             match ps with
-             | [] => ret values
-             | (scope, v, dbg) :: ps' =>
-                 n <- ctx_wrap (CtxStmts [dbg]) (ctx_wrap CtxOther (sv <- eval_lv fuel scope ;; lift (as_syn sv))) ;;
-                 match nmap_get values n with
-                 | Some _ =>
-                     match (fix dget (l : list (N * stmt_ctx)) : option stmt_ctx :=
-                              match l with [] => None | (k, d) :: l' => if N.eqb n k then Some d else dget l' end) dbgs with
-                     | Some prev => fun _ => Err (EInContext (CtxStmts [prev; dbg]) EDuplicateVariable)
-                     | None => panic P_unreachable_scoped
-                     end
-                 | None => go ps' (values ++ [(n, v)]) (dbgs ++ [(n, dbg)])
-                 end
-             end) pairs [] []
+          force_pairs (fun scope => sv <- eval_lv fuel scope ;; lift (as_syn sv)) pairs [] []
       | SVForcing => fail ERecursivelyDefinedScopedVariable
       | SVForced map => ret map
       end
@@ -280,9 +329,6 @@ Section Lazy.
                   match l with [] => None | (k', d) :: l' => if elem_key_eqb k k' then Some d else get l' end) (l_prev s) in
     set_lprev ((k, dbg) :: filter (fun e => negb (elem_key_eqb k (fst e))) (l_prev s)) ;;; ret old.
 
-  Definition dup_attr_error {A} (prev : option stmt_ctx) (dbg : stmt_ctx) : LM A :=
-    fun _ => Err (EInContext (CtxStmts (match prev with Some p => [p; dbg] | None => [dbg] end)) EDuplicateAttribute).
-
   (* LazyStatement::evaluate *)
   Definition eval_lstmt (fuel : nat) (st : lstmt) : LM unit :=
     lpoll L_eval_stmt ;;;
@@ -293,48 +339,23 @@ Section Lazy.
            iterM (fun a : ident * lvalue =>
                     v <- eval_lv fuel (snd a) ;;
                     prev <- prev_insert (KNode n (fst a)) dbg ;;
-                    s <- get_state ;;
-                    match gnode_at (l_graph s) n with
-                    | None => panic P_graph_index
-                    | Some nd => let '(m', c) := attrs_add (g_attrs nd) (fst a) v in
-                                 match c with
-                                 | Some _ => dup_attr_error prev dbg
-                                 | None => set_lgraph (graph_update (l_graph s) n (with_attrs m'))
-                                 end
-                    end) attrs)
+                    lattr_node_add n (fst a) v prev dbg) attrs)
     | LSEdge src snk eattrs dbg =>
         ctx_wrap (CtxStmts [dbg])
           (a <- ctx_wrap CtxOther (eval_as_gnode fuel src) ;;
            b <- ctx_wrap CtxOther (eval_as_gnode fuel snk) ;;
-           s <- get_state ;;
-           match graph_add_edge (l_graph s) a b with
-           | None => panic P_graph_index
-           | Some (g', isnew) =>
-               if isnew then
-                 set_lgraph (graph_update g' a (fun nd => with_edges (edges_set b eattrs (g_edges nd)) nd))
-               else set_lgraph g'
-           end)
+           ledge_add a b eattrs)
     | LSAttrEdge src snk attrs dbg =>
         ctx_wrap (CtxStmts [dbg])
           (a <- ctx_wrap CtxOther (eval_as_gnode fuel src) ;;
            b <- ctx_wrap CtxOther (eval_as_gnode fuel snk) ;;
            iterM (fun ak : ident * lvalue =>
                     v <- eval_lv fuel (snd ak) ;;
-                    s <- get_state ;;
-                    match gnode_at (l_graph s) a with
-                    | None => panic P_graph_index
-                    | Some nd =>
-                        match edges_get b (g_edges nd) with
-                        | None => fail EUndefinedEdge
-                        | Some m =>
-                            prev <- prev_insert (KEdge a b (fst ak)) dbg ;;
-                            let '(m', c) := attrs_add m (fst ak) v in
-                            match c with
-                            | Some _ => dup_attr_error prev dbg
-                            | None => set_lgraph (graph_update (l_graph s) a (with_edges (edges_set b m' (g_edges nd))))
-                            end
-                        end
-                    end) attrs)
+                    ex <- ledge_exists a b ;;
+                    if ex then
+                      prev <- prev_insert (KEdge a b (fst ak)) dbg ;;
+                      lattr_edge_add a b (fst ak) v prev dbg
+                    else fail EUndefinedEdge) attrs)
     | LSPrint args dbg =>
         ctx_wrap (CtxStmts [dbg])
           (iterM (fun a => match a with Some lv => eval_lv fuel lv ;;; ret tt | None => ret tt end) args)
